@@ -91,6 +91,8 @@ func (d *Dir) Run(id, client, server string, ops []any, timeout time.Duration) (
 	var stdout, stderr bytes.Buffer
 	cmd.Stdout = &stdout
 	cmd.Stderr = &stderr
+	// the emitted TypeScript is never run in UTC either (see scratch.Item.Run)
+	cmd.Env = append(os.Environ(), "TZ=Pacific/Pago_Pago")
 	if err := cmd.Start(); err != nil {
 		return nil, nil, err
 	}
